@@ -296,6 +296,8 @@ def pow_exp(rng, a, lang=False):
     """exponents that keep a**b computable: huge exponents only for bases 0, 1, -1"""
     if abs(a) <= 1:
         return rng.choice([0, 1, 2, 63, 64, 1000, 2**32 - 1, 2**32, 2**40, 2**64, -1] + ([-2**64] if lang else []))
+    if lang and rng.random() < 0.1:
+        return rng.choice([2**64, 2**64 + 5, 2**127, 2**200])     # beyond the machine word: "exponent too large"
     if abs(a) > 2**70:
         return rng.choice([0, 1, 2, 3, 7, -1, -5])
     return rng.choice([0, 1, 2, 3, 5, 31, 62, 63, 64, 65, 127, 130, -1, -5])
@@ -467,7 +469,7 @@ def run(chk):
     for _ in range(n):
         a = rng.choice(pool)
         b = pow_exp(rng, a, lang=True)
-        want = ERR if (b < 0 or (a == 0 and b == 0)) else o_int(a ** b)
+        want = ERR if (b < 0 or (a == 0 and b == 0) or (b >= 2**64 and abs(a) > 1)) else o_int(a ** b)
         lcases.append(("b.pow", f"{lit(a)} ** {lit(b)}", f"int b.pow {a} {b}", want, (a, b)))
     # hash: range, and the same value whatever route produced the operand
     for _ in range(n):
